@@ -2,4 +2,4 @@ From Coq Require Import Extraction ExtrOcamlBasic.
 From LTV.C19 Require Import Model.
 Set Extraction Optimize.
 Extraction Language OCaml.
-Extraction "extracted/c19_model.ml" init run due_of.
+Extraction "extracted/c19_model.ml" init run run2 due_of.
